@@ -87,6 +87,11 @@ def handle (d : DSt) (ws : List String) : DSt × String :=
         | [] => "spin"
       (d, s!"count={showInts t.rets.reverse} wait={w} steps={r.2}")
     | none => (d, "bad-op")
+  | ["deadline"] =>
+    -- WaitTimeout/WaitCTX at rest select on Wait()'s result and a timer: released iff the installed
+    -- channel is closed (count 0), otherwise the deadline fires
+    (d, if quiescent d.s && isClosed d.s.sh d.s.sh.wchan then "released"
+        else if quiescent d.s then "deadline" else "bad-op")
   | ["state"] => (d, showState d.s)
   | _ => (d, "bad-op")
 
